@@ -22,7 +22,8 @@ from .t1_grid import _guard, apply, as_h, compose, identity_h, make_interp, teq,
 
 
 class BatchEnv:
-    def __init__(self, ctx: Ctx, shape: Tuple[int, ...], N: int = 2, C: int = 1, ac: bool = True, same_grid: bool = False):
+    def __init__(self, ctx: Ctx, shape: Tuple[int, ...], N: int = 2, C: int = 1, ac: bool = True, same_grid: bool = False,
+                 fractional: bool = False):
         reset_relations()
         self.ctx = ctx
         self.facts = fresh_facts()
@@ -43,6 +44,16 @@ class BatchEnv:
             for x in s:
                 self.facts.declare_positive(x)
             R = rotation(D, tag)
+            if fractional:
+                # grid with a non-integral internal float size: downsample() of size 2n-1 keeps _size = n - 1/2, reports size() = n
+                g0 = self.it.new(self.Grid, size=tuple(2 * n - 1 for n in self.size), spacing=STensor.from_flat(s, [D]),
+                                 center=STensor.from_flat(c, [D]), direction=R, align_corners=ac)
+                g = self.it.method(g0, "downsample")
+                if tuple(int(x) for x in self.it.method(g, "size")) != tuple(self.size) or \
+                        all(to_rat(x).equals(to_rat(y)) for x, y in zip(g.attrs["_size"].flat(), self.size)):
+                    raise AnalysisError("fractional-size scenario: downsample() of odd sizes no longer keeps a non-integral internal size")
+                self.grids.append(g)
+                continue
             self.grids.append(self.it.new(self.Grid, size=self.size, spacing=STensor.from_flat(s, [D]),
                                           center=STensor.from_flat(c, [D]), direction=R, align_corners=ac))
         self.data = STensor.symbols("I", [N, C] + list(shape))
@@ -199,6 +210,10 @@ def run_lockstep(ctx: Ctx) -> None:
                     ("center_crop", "(2,2)", ((2, 2),), {}, None, "constant"),
                     ("center_crop", "(3,2)", ((3, 2),), {}, None, "constant"),
                     ("center_crop", "(1,3)", ((1, 3),), {}, None, "constant"),
+                    ("center_crop", "(9,2) larger than the image on x", ((9, 2),), {}, None, "constant"),
+                    ("center_crop", "(2,8) larger than the image on y", ((2, 8),), {}, None, "constant"),
+                    ("center_pad", "(2,7) smaller than the image on x", ((2, 7),), {}, None, "constant"),
+                    ("center_pad", "(8,1) smaller than the image on y", ((8, 1),), {}, None, "constant"),
                     ("center_pad", "(7,4)", ((7, 4),), {}, None, "constant"),
                     ("center_pad", "(6,6),value=3", ((6, 6),), dict(value=3), 3, "constant"),
                     ("center_pad", "(5,3)", ((5, 3),), {}, None, "constant"),
@@ -213,6 +228,8 @@ def run_lockstep(ctx: Ctx) -> None:
                     ("pad", "num=(1,0,0,2,1,0),value=2", (), dict(num=(1, 0, 0, 2, 1, 0), value=2), 2, "constant"),
                     ("center_crop", "(1,2,1)", ((1, 2, 1),), {}, None, "constant"),
                     ("center_pad", "(3,4,5)", ((3, 4, 5),), {}, None, "constant"),
+                    ("center_crop", "(1,9,2) larger than the image on y", ((1, 9, 2),), {}, None, "constant"),
+                    ("center_pad", "(1,5,1) smaller than the image on x,z", ((1, 5, 1),), {}, None, "constant"),
                     ("region_of_interest", "start=(0,1,0),size=(2,2,1)", ((0, 1, 0), (2, 2, 1)), {}, None, "constant"),
                     ("narrow", "dim=4,start=0,length=1", (4, 0, 1), {}, None, "constant"),
                     ("narrow", "dim=2,start=1,length=1", (2, 1, 1), {}, None, "constant"),
@@ -263,6 +280,13 @@ def run_lockstep(ctx: Ctx) -> None:
                                 return False, "returned grid differs from Grid." + op + " under the flag given to the tensor operation"
                         return True, ""
                     _guard(ctx, "T13.interp-flag", f"{tag}:{op}:{kw}", IBm[op], f"op={op} kw={kw} {tag}", thi)
+            # the same operations on images whose grids carry a non-integral internal size (a pyramid level of an odd-sized grid)
+            envf = BatchEnv(ctx, shape, N=2, C=1, ac=ac, fractional=True)
+            for op, desc, args, kw, fill, mode in cases:
+                def thf(op=op, args=args, kw=kw, fill=fill, mode=mode):
+                    r = envf.it.method(envf.batch, op, *args, **kw)
+                    return _check_index_only(envf, r, fill, mode)
+                _guard(ctx, "T13.index-only", f"{tag},fractional-size:{op}:{desc}", IBm[op], f"op={op} {desc} {tag},fractional-size", thf)
 
 
 def _sample_obligations(ctx: Ctx, env: BatchEnv, tag: str, fS) -> None:
